@@ -8,7 +8,7 @@ from core import term as T
 
 ID = "C33"
 GEN = []
-RULE = ("cases: histories of announcements for the same servers through one real StorageFarmBroker (0/1/2 grid-manager keys, Foolscap "
+RULE = ("cases: the default clock under non-UTC process time zones with certificates within hours of the real present; histories of announcements for the same servers through one real StorageFarmBroker (0/1/2 grid-manager keys, Foolscap "
         "and HTTP server objects; certificates kept / added / renewed / withdrawn between announcements, clock advancing), histories in one process (genuine certificates verified first, then altered copies reusing their signatures, through "
         "validate_grid_manager_certificate and through fresh verifier closures for several servers) and (configured grid-manager keys, list of certificates, server key, instants at which the predicate is called); "
         "certificates are valid / signed by an unconfigured key / tampered bytes / tampered signature / other server / expired / "
@@ -593,6 +593,77 @@ def announcements(ctx, terms, info, only=None):
         gm.current_datetime_with_zone = saved
 
 
+def timezones(ctx, terms, info, only=None):
+    """The verifier's DEFAULT clock (no now_fn: what the node uses) in processes whose local time zone is not UTC.
+    Expiry is an absolute instant: a certificate that ran out (or runs out) within a few hours of the real present must
+    be judged against the real UTC present whatever TZ says."""
+    import contextlib
+    import io
+    import os
+    import time
+    from allmydata.client import config_from_string
+    from allmydata.grid_manager import create_grid_manager_verifier, SignedCertificate
+    from allmydata.storage_client import StorageFarmBroker, StorageClientConfig
+    from allmydata.util import base32
+    saved = os.environ.get("TZ")
+    try:
+        for i in (range(ctx.n(24, 240)) if only is None else [only]):
+            r = ctx.rng("tz", i)
+            tz = r.choice(["UTC0", "PST8", "PST8PDT", "HST10", "AKST9", "JST-9", "IST-5:30", "NZST-12", "CET-1", "AEST-10", "BRT3"])
+            os.environ["TZ"] = tz
+            time.tzset()
+            real = datetime.now(timezone.utc)
+            w = World()
+            keys = [r.randrange(NGM)]
+            g = keys[0]
+            me = r.randrange(NSRV)
+            other = (me + 1) % NSRV
+            certs = []
+            for _ in range(r.choice([1, 1, 2])):
+                kind = r.choice(["ran-out-hours-ago", "ran-out-hours-ago", "runs-out-in-hours", "runs-out-in-hours", "other-server"])
+                hours = timedelta(minutes=r.randrange(20, 13 * 60))
+                exp = real - hours if kind == "ran-out-hours-ago" else real + hours
+                names = other if kind == "other-server" else me
+                data = cert_bytes(key("S%d" % names)[2], iso(exp, r))
+                certs.append(dict(kind=kind, data=data, sig=w.sign(g, data), truth=dict(signer=g, names=names, expires=exp, genuine=True)))
+            case = dict(world=w, keys=keys, certs=certs, server=me, times=[real])
+            want = expected(case, real)
+            observed = []
+            with contextlib.redirect_stdout(io.StringIO()):
+                # (a) the closure with its default clock
+                v = create_grid_manager_verifier([key("G%d" % g)[1]], [SignedCertificate(certificate=c["data"], signature=c["sig"]) for c in certs],
+                                                 key("S%d" % me)[2])
+                # (b) the server object a StorageFarmBroker builds from an announcement
+                sb = StorageFarmBroker(True, None, config_from_string(env.subdir("c33-node"), "tub.port", ""),
+                                       StorageClientConfig(grid_manager_keys=[key("G%d" % g)[1]]))
+                ann = {"anonymous-storage-FURL": FURL, "permutation-seed-base32": "ae",
+                       "grid-manager-certificates": [{"certificate": c["data"].decode(), "signature": base32.b2a(c["sig"]).decode()} for c in certs]}
+                srv = sb._make_storage_server(key("S%d" % me)[2][len(b"pub-"):], {"ann": ann})
+                for how, fn in (("create_grid_manager_verifier()()", v), ("NativeStorageServer.upload_permitted()", srv.upload_permitted)):
+                    try:
+                        res = fn()
+                        o = "Permit" if res is True else "Deny" if res is False else "Other:%r" % (res,)
+                    except Exception as e:
+                        o = "Raise"
+                    observed.append((how, o))
+            for how, o in observed:
+                ctx.case(("tz", tz, tuple(c["kind"] for c in certs), how, o), kind="default-clock:" + ("UTC" if tz == "UTC0" else "non-UTC"))
+                if o != ("Permit" if want else "Deny"):
+                    ctx.oracle_fail("gm-default-clock-not-utc",
+                                    "process time zone TZ=%s, real time %s UTC: %s with the default clock answers %s, but the certificates (%s) say %s -- "
+                                    "the default clock does not read the UTC present" % (tz, real.isoformat(), how, o,
+                                    ", ".join("%s %s" % (c["kind"], c["truth"]["expires"].isoformat()) for c in certs), "Permit" if want else "Deny"),
+                                    case=dict(describe(case), stream="tz", index=i, TZ=tz), expected="Permit" if want else "Deny", observed=o)
+                terms.append(model_term(case, [o]))
+                info.append(("tz", i, dict(describe(case), TZ=tz, how=how), [o]))
+    finally:
+        if saved is None:
+            os.environ.pop("TZ", None)
+        else:
+            os.environ["TZ"] = saved
+        time.tzset()
+
+
 def run(ctx):
     ctx.correspondence("verifier-vs-model")
     ctx.correspondence("storage-client-wiring-vs-model")
@@ -607,11 +678,12 @@ def run(ctx):
     for i in range(ctx.n(40, 400)):
         history(ctx, i, terms, info)
     announcements(ctx, terms, info)
+    timezones(ctx, terms, info)
     bad = ctx.coq_check(IMPORTS, terms, tag="c33")
     for ix in bad:
         stream, i, case, observed = info[ix]
         ctx.mismatch("gm-verifier-model-vs-impl", "Coq model of create_grid_manager_verifier and the implementation differ",
-                     case=dict(case if stream in ("history", "announce") else describe(case), stream=stream, index=i), observed=observed,
+                     case=dict(case if stream in ("history", "announce", "tz") else describe(case), stream=stream, index=i), observed=observed,
                      correspondence="verifier-vs-model")
     ctx.trace(len(terms) - len(bad))
     sign_roundtrip(ctx)
@@ -732,6 +804,10 @@ def _wiring(ctx):
 def replay(ctx, rec):
     c = rec.get("case") or {}
     stream, i = c.get("stream"), c.get("index")
+    if stream == "tz":
+        terms, info = [], []
+        timezones(ctx, terms, info, only=i)
+        return {"evaluated_now": True, "observed": [x[3] for x in info], "model_vs_impl_disagreements": ctx.coq_check(IMPORTS, terms, tag="c33r")}
     if stream == "announce":
         terms, info = [], []
         announcements(ctx, terms, info, only=i)
